@@ -307,6 +307,7 @@ class graph(Graph):
             logger.verbose("add overlay block at %s" % vaddr)
             self.overlay = support
         i = support.locate(vaddr)
+        fallthrough = None
         # check if block intersects others:
         if i is not None:
             mo = support._map[i]
@@ -334,8 +335,13 @@ class graph(Graph):
                                 v.misc["double-overlay"] = 1
                                 return v
                             support = self.overlay or MemoryZone()
+                        else:
+                            # v now stops where nextnode starts:
+                            fallthrough = nextnode
         v = super(graph, self).add_vertex(v)  # before support write !!
         support.write(vaddr, v)
+        if fallthrough is not None:
+            self.add_edge(link(v, fallthrough))
         return v
 
     def get_by_name(self, name):
